@@ -298,6 +298,107 @@ pub fn behaviour(b: u64, rng: &mut Rng, out: &mut Out, big: bool, big_hi: u64) -
     (ops, json!({"b": b, "universe": u.len(), "first_ops": sample_ops}))
 }
 
+/// Directed: two groups of ten nodes in neighbouring buckets, the group in the NEARER bucket seen a minute later; the table is
+/// re-keyed (as after the confirmation of a public address) to an id from which all twenty are equally far, so they share one
+/// full bucket; sixteen minutes later a newcomer for that bucket arrives. The entry it replaces is the least recently seen one.
+pub fn rekey_merge(b: u64, rng: &mut Rng, out: &mut Out) -> u64 {
+    v::reset_clock();
+    let tid = rng.id();
+    let mut tid2 = tid;
+    tid2[0] ^= 0x80;
+    let mut u: Vec<UNode> = vec![];
+    for i in 0..20usize {
+        let d = if i < 10 { 159 } else { 158 };
+        let id = id_at_distance(&tid, d, rng);
+        u.push(UNode { id, addr: SocketAddrV4::new(Ipv4Addr::new(10, 40, 0, i as u8 + 1), 6881), sec: true });
+    }
+    let newcomer = id_at_distance(&tid2, 160, rng);
+    u.push(UNode { id: newcomer, addr: SocketAddrV4::new(Ipv4Addr::new(10, 40, 1, 1), 6881), sec: true });
+    let mut index = HashMap::new();
+    for (i, x) in u.iter().enumerate() {
+        index.entry((x.id, x.addr)).or_insert(i);
+    }
+    out.line(&json!({"e":"reset","b":b,"tid":id_json(&tid),
+        "nodes": u.iter().map(|x| json!({"id":id_json(&x.id),"ip":x.addr.ip().to_string(),"port":x.addr.port(),"sec":x.sec})).collect::<Vec<_>>()}));
+    let mut table = RoutingTable::new(Id::from(tid));
+    let mut ops = 0u64;
+    let mut emit = |table: &RoutingTable, mut ev: Value, out: &mut Out| {
+        ev["proj"] = proj(table, &index);
+        ev["size"] = json!(table.size());
+        ev["is_empty"] = json!(table.is_empty());
+        ev["iter"] = json!(table.nodes().map(|x| index.get(&(*x.id().as_bytes(), x.address())).map(|i| *i as i64 + 1).unwrap_or(-1)).collect::<Vec<i64>>());
+        ev["to_bootstrap"] = json!(table.to_bootstrap().len());
+        out.line(&ev);
+    };
+    let add = |table: &mut RoutingTable, i: usize| -> Value {
+        let ret = table.add(Node::new(Id::from(u[i].id), u[i].addr));
+        json!({"e":"op","op":"add","n":i + 1,"ret":ret})
+    };
+    for i in 0..10 {
+        let ev = add(&mut table, i);
+        emit(&table, ev, out);
+        ops += 1;
+    }
+    v::advance(Duration::from_millis(60_000));
+    emit(&table, json!({"e":"op","op":"advance","ms":60_000}), out);
+    for i in 10..20 {
+        let ev = add(&mut table, i);
+        emit(&table, ev, out);
+        ops += 1;
+    }
+    v::reset_id(&mut table, Id::from(tid2));
+    emit(&table, json!({"e":"op","op":"reset_id","tid":id_json(&tid2)}), out);
+    v::advance(Duration::from_millis(960_000));
+    emit(&table, json!({"e":"op","op":"advance","ms":960_000}), out);
+    let ev = add(&mut table, 20);
+    emit(&table, ev, out);
+    ops + 4
+}
+
+/// Directed: a full bucket whose entries were seen one second apart; one of them (the head, one in the middle, the tail) is
+/// removed, the bucket is filled up again, everything goes stale, a newcomer arrives: it replaces the least recently seen entry.
+pub fn remove_then_evict(b: u64, which: usize, rng: &mut Rng, out: &mut Out) -> u64 {
+    v::reset_clock();
+    let tid = rng.id();
+    let mut u: Vec<UNode> = vec![];
+    for i in 0..22usize {
+        let id = id_at_distance(&tid, 160, rng);
+        u.push(UNode { id, addr: SocketAddrV4::new(Ipv4Addr::new(10, 41, 0, i as u8 + 1), 6881), sec: true });
+    }
+    let mut index = HashMap::new();
+    for (i, x) in u.iter().enumerate() {
+        index.entry((x.id, x.addr)).or_insert(i);
+    }
+    out.line(&json!({"e":"reset","b":b,"tid":id_json(&tid),
+        "nodes": u.iter().map(|x| json!({"id":id_json(&x.id),"ip":x.addr.ip().to_string(),"port":x.addr.port(),"sec":x.sec})).collect::<Vec<_>>()}));
+    let mut table = RoutingTable::new(Id::from(tid));
+    let mut ops = 0u64;
+    let mut emit = |table: &RoutingTable, mut ev: Value, out: &mut Out| {
+        ev["proj"] = proj(table, &index);
+        ev["size"] = json!(table.size());
+        ev["is_empty"] = json!(table.is_empty());
+        ev["iter"] = json!(table.nodes().map(|x| index.get(&(*x.id().as_bytes(), x.address())).map(|i| *i as i64 + 1).unwrap_or(-1)).collect::<Vec<i64>>());
+        ev["to_bootstrap"] = json!(table.to_bootstrap().len());
+        out.line(&ev);
+        1u64
+    };
+    for i in 0..20 {
+        let ret = table.add(Node::new(Id::from(u[i].id), u[i].addr));
+        ops += emit(&table, json!({"e":"op","op":"add","n":i + 1,"ret":ret}), out);
+        v::advance(Duration::from_millis(1000));
+        ops += emit(&table, json!({"e":"op","op":"advance","ms":1000}), out);
+    }
+    table.remove(&Id::from(u[which].id));
+    ops += emit(&table, json!({"e":"op","op":"remove","n":which + 1}), out);
+    let ret = table.add(Node::new(Id::from(u[20].id), u[20].addr));
+    ops += emit(&table, json!({"e":"op","op":"add","n":21,"ret":ret}), out);
+    v::advance(Duration::from_millis(960_000));
+    ops += emit(&table, json!({"e":"op","op":"advance","ms":960_000}), out);
+    let ret = table.add(Node::new(Id::from(u[21].id), u[21].addr));
+    ops += emit(&table, json!({"e":"op","op":"add","n":22,"ret":ret}), out);
+    ops
+}
+
 pub fn run(args: &Args) -> i32 {
     let seed = args.u64("seed", 1);
     let mut rng = Rng::new(seed.wrapping_mul(31).wrapping_add(11));
@@ -330,8 +431,21 @@ pub fn run(args: &Args) -> i32 {
             samples.push(s);
         }
     }
+    let mut directed = 0;
+    if big > 0 && (only.is_none() || only == Some(n + big)) {
+        ops += rekey_merge(n + big, &mut rng, &mut out);
+        directed = 1;
+    }
+    if big > 0 {
+        for (k, which) in [0usize, 7, 19].iter().enumerate() {
+            if only.is_none() || only == Some(n + big + 1 + k as u64) {
+                ops += remove_then_evict(n + big + 1 + k as u64, *which, &mut rng, &mut out);
+                directed += 1;
+            }
+        }
+    }
     out.finish();
-    let summary = json!({"behaviours": n + big, "ops": ops, "samples": samples});
+    let summary = json!({"behaviours": n + big + directed, "ops": ops, "samples": samples});
     if let Some(p) = args.get("summary") {
         crate::util::write_json(p, &summary);
     }
